@@ -205,20 +205,23 @@ pub fn sweep_refresh_race(rounds: u64, prop: &str) -> LiveResult {
         let snap = stretto::verif::cache_snapshot(&c, |v| *v);
         let resident: std::collections::BTreeSet<u64> = snap.store.items.iter().map(|i| i.0).collect();
         let charged: std::collections::BTreeSet<u64> = snap.policy.charges.iter().map(|p| p.0).collect();
+        // (a refreshed value handed to on_evict counts as lost: with 600 unit-cost entries under max_cost 1000
+        // nothing is evicted for capacity, so only the sweep can have taken it)
         let called: std::collections::BTreeSet<u64> = cb
             .0
             .lock()
             .unwrap()
             .iter()
-            .map(|e| match e {
-                CbEv::Exit(v) | CbEv::Evict(_, _, v, _) | CbEv::Reject(_, _, v, _) => *v,
+            .filter_map(|e| match e {
+                CbEv::Exit(v) | CbEv::Reject(_, _, v, _) => Some(*v),
+                CbEv::Evict(..) => None,
             })
             .collect();
         let lost: Vec<u64> = refreshed.iter().copied().filter(|k| !resident.contains(k) && !called.contains(&(k + 10_000))).collect();
         let stale: Vec<u64> = resident.iter().copied().filter(|k| snap.store.items.iter().any(|i| i.0 == *k && i.2 < 10_000)).collect();
         if matches!(prop, "all" | "C03" | "C05") && !lost.is_empty() {
             note(&mut violations, &mut detail, format!(
-                "Cache round {}: {} keys were re-inserted with a one-hour TTL while the sweep of their old bucket was stalled; {} of them are neither resident nor were their new values handed to a callback (e.g. {:?}): the sweep removed entries that had not expired",
+                "Cache round {}: {} keys were re-inserted with a one-hour TTL while the sweep of their old bucket was stalled; {} of them are no longer resident although nothing replaced, removed or refused them (e.g. {:?}): the sweep removed entries that had not expired",
                 r, refreshed.len(), lost.len(), &lost[..lost.len().min(5)]
             ));
         }
@@ -577,8 +580,9 @@ pub fn async_sweep_refresh_race(rounds: u64, prop: &str) -> LiveResult {
                 .lock()
                 .unwrap()
                 .iter()
-                .map(|e| match e {
-                    CbEv::Exit(v) | CbEv::Evict(_, _, v, _) | CbEv::Reject(_, _, v, _) => *v,
+                .filter_map(|e| match e {
+                    CbEv::Exit(v) | CbEv::Reject(_, _, v, _) => Some(*v),
+                    CbEv::Evict(..) => None,
                 })
                 .collect();
             let lost: Vec<u64> = refreshed.iter().copied().filter(|k| !resident.contains(k) && !called.contains(&(k + 10_000))).collect();
@@ -586,7 +590,7 @@ pub fn async_sweep_refresh_race(rounds: u64, prop: &str) -> LiveResult {
             let mut msgs = Vec::new();
             if matches!(prop.as_str(), "all" | "C03" | "C05" | "C19") && !lost.is_empty() {
                 msgs.push(format!(
-                    "AsyncCache round {}: {} keys were re-inserted with a one-hour TTL while the sweep of their old bucket was stalled; {} of them are neither resident nor were their new values handed to a callback (e.g. {:?}): the sweep removed entries that had not expired",
+                    "AsyncCache round {}: {} keys were re-inserted with a one-hour TTL while the sweep of their old bucket was stalled; {} of them are no longer resident although nothing replaced, removed or refused them (e.g. {:?}): the sweep removed entries that had not expired",
                     r, refreshed.len(), lost.len(), &lost[..lost.len().min(5)]
                 ));
             }
@@ -628,4 +632,204 @@ pub fn async_sweep_refresh_race(rounds: u64, prop: &str) -> LiveResult {
         }
     }
     LiveResult { scenario: "async_sweep_refresh_race", rounds, violations, detail }
+}
+
+/// C02 / C04 / C18: caches keyed by every integer type `TransparentKeyBuilder` supports. A set of distinct
+/// keys (boundary values, pairs that differ only in their high bits, negative values) is inserted with
+/// distinct values into a cache with ample room; after `wait()` every key returns its own value, `len()` is
+/// the number of keys, and the index handed to callbacks / used by the store is the key itself.
+pub fn transparent_keys(_rounds: u64) -> LiveResult {
+    use stretto::TransparentKeyBuilder;
+    mark_client_pub();
+    let mut violations = 0u64;
+    let mut detail = String::new();
+    macro_rules! check_type {
+        ($t:ty, $keys:expr) => {{
+            let keys: Vec<$t> = $keys;
+            let c = CacheBuilder::<$t, u64>::new(1024, 1_000_000)
+                .set_key_builder(TransparentKeyBuilder::<$t>::default())
+                .set_ignore_internal_cost(true)
+                .set_cleanup_duration(Duration::from_secs(3600))
+                .finalize()
+                .expect("cache");
+            let mut accepted = Vec::new();
+            for (i, k) in keys.iter().enumerate() {
+                if c.insert(*k, 1000 + i as u64, 1) {
+                    accepted.push((i, *k));
+                }
+                let _ = c.wait();
+            }
+            let mut wrong = Vec::new();
+            for (i, k) in &accepted {
+                let got = c.get(k).map(|v| *v.value());
+                if got != Some(1000 + *i as u64) {
+                    wrong.push(format!("get({:?}) = {:?}, inserted {}", k, got, 1000 + *i as u64));
+                }
+            }
+            let len = c.len();
+            let _ = c.close();
+            if !wrong.is_empty() || len != accepted.len() {
+                note(&mut violations, &mut detail, format!(
+                    "Cache<{}, u64> with TransparentKeyBuilder, {} distinct keys {:?} inserted with distinct values into a cache with ample room (all inserts returned true): len() = {}; {}",
+                    stringify!($t), accepted.len(), keys, len, wrong.join("; ")
+                ));
+            }
+        }};
+    }
+    check_type!(u8, vec![0, 1, 127, 128, 255]);
+    check_type!(u16, vec![0, 1, 255, 256, 0x8000, 0xffff]);
+    check_type!(u32, vec![0, 1, 0xffff, 0x1_0000, 0x8000_0000, 0xffff_ffff, 0x1234_0005, 0x4321_0005]);
+    check_type!(u64, vec![0, 1, 0xffff_ffff, 0x1_0000_0000, 0x7f3a_0000_1000, 0x7f3b_0000_1000, 1 << 63, u64::MAX, (5 << 58) | 5, (9 << 58) | 5]);
+    check_type!(usize, vec![0, 1, 0xffff_ffff, 0x1_0000_0000, 0x7f3a_0000_1000, 0x7f3b_0000_1000, 1 << 63, usize::MAX, (3 << 32) | 7, (4 << 32) | 7]);
+    check_type!(i8, vec![0, 1, -1, i8::MIN, i8::MAX, -128 + 5]);
+    check_type!(i16, vec![0, 1, -1, i16::MIN, i16::MAX, 255, -255, 256]);
+    check_type!(i32, vec![0, 1, -1, i32::MIN, i32::MAX, 0xffff, -0xffff, -2]);
+    check_type!(i64, vec![0, 1, -1, i64::MIN, i64::MAX, 0xffff_ffff, -0xffff_ffff, 1 << 40, -(1 << 40)]);
+    check_type!(isize, vec![0, 1, -1, isize::MIN, isize::MAX, 0x1_0000_0000, -0x1_0000_0000, (3 << 32) | 7, (4 << 32) | 7]);
+    LiveResult { scenario: "transparent_keys", rounds: 10, violations, detail }
+}
+
+/// C09 / C11: `insert_if_present` racing the departure of its key. The Coster is slow on client threads and
+/// the cost given is 0, so the call spends milliseconds between its presence check and the store update;
+/// meanwhile another thread removes the key (even rounds) or clears the cache (odd rounds). Whatever the
+/// interleaving, `insert_if_present` never creates an entry: once both calls have returned and the cache is
+/// quiescent, the key is absent (nothing else ever inserts it again).
+pub fn iip_race(rounds: u64, prop: &str) -> LiveResult {
+    mark_client_pub();
+    let mut violations = 0u64;
+    let mut detail = String::new();
+    for r in 0..rounds {
+        let by_clear = r % 2 == 1;
+        if (by_clear && prop == "C09" && r % 4 == 3) || (!by_clear && prop == "C11") {
+            // C11 judges the clear variant only
+            if !by_clear && prop == "C11" {
+                continue;
+            }
+        }
+        let c: LCache = CacheBuilder::<u64, u64>::new(256, 1_000_000)
+            .set_key_builder(SplitKeyBuilder)
+            .set_coster(SlowCoster { micros: 4000 })
+            .set_update_validator(TableValidator(0))
+            .set_callback(RecCallback::default())
+            .set_hasher(SlowWorkerHasher { micros: 0 })
+            .set_buffer_size(256)
+            .set_buffer_items(64)
+            .set_metrics(true)
+            .set_ignore_internal_cost(true)
+            .set_cleanup_duration(Duration::from_secs(3600))
+            .finalize()
+            .expect("cache");
+        let key = mk_key(40 + r % 7, 0);
+        let _ = c.insert(key, 1, 1);
+        let _ = c.wait();
+        let present = c.get(&key).is_some();
+        let a = {
+            let c = c.clone();
+            std::thread::spawn(move || c.insert_if_present(key, 20 + r, 0))
+        };
+        std::thread::sleep(Duration::from_micros(800 + (r % 5) * 400));
+        let departed = if by_clear {
+            c.clear().is_ok()
+        } else {
+            c.try_remove(&key).is_ok()
+        };
+        let ret = a.join().unwrap_or(false);
+        let _ = c.wait();
+        std::thread::sleep(Duration::from_millis(5));
+        let _ = c.wait();
+        let got = c.get(&key).map(|v| *v.value());
+        let len = c.len();
+        let _ = c.close();
+        // the update may have been applied before the key departed (then it left with it); afterwards the key is absent
+        if present && departed && (got.is_some() || len != 0) {
+            note(&mut violations, &mut detail, format!(
+                "Cache round {}: key resident; thread A calls insert_if_present(key, {}, 0) with a Coster that takes 4 ms; meanwhile thread B {} (Ok). A returned {}. At quiescence get(key) = {:?}, len() = {}: insert_if_present created an entry for a key that had left the cache",
+                r, 20 + r, if by_clear { "calls clear()" } else { "removes the key" }, ret, got, len
+            ));
+        }
+    }
+    LiveResult { scenario: "iip_race", rounds, violations, detail }
+}
+
+/// C12 / C20 / C10: callbacks that call back into the cache they belong to. The processor's `on_reject` /
+/// `on_evict` / `on_exit` insert (an update of a resident key and a fresh key), look up and read `len()` on
+/// the same cache while the insert buffer is small and busy. Afterwards `wait()`, `clear()` and `close()` must
+/// return and the workers must be gone; nothing may panic. (Removing from inside a callback blocks when the
+/// buffer is full — `remove` waits for room and the processor is the one who makes room — so the callbacks
+/// here do not remove.)
+pub fn reentrant_callbacks(rounds: u64) -> LiveResult {
+    mark_client_pub();
+    let mut violations = 0u64;
+    let mut detail = String::new();
+    for r in 0..rounds {
+        let cb = RecCallback::default();
+        let c = build_sync(256, 10, 4, 4, Duration::from_secs(3600), 0, true, cb.clone());
+        let hot = mk_key(7, 0);
+        let _ = c.insert(hot, 1, 1);
+        let _ = c.wait();
+        {
+            let c2 = c.clone();
+            let n = Arc::new(AtomicU64::new(0));
+            cb.set_hook(Box::new(move |_e| {
+                let i = n.fetch_add(1, Ordering::SeqCst);
+                // a bounded amount of re-entrant work (a callback that inserts for ever would keep the drain of a
+                // clear() busy for ever by its own doing): an update of a resident key, a fresh key, a lookup, len()
+                if i >= 120 {
+                    return;
+                }
+                let _ = c2.insert(hot, 5000 + i, 1);
+                let _ = c2.insert(mk_key(100 + i % 50, 0), i, 1);
+                let _ = c2.get(&hot).map(|v| *v.value());
+                let _ = c2.len();
+            }));
+        }
+        let done = Arc::new(AtomicU64::new(0));
+        let worker = {
+            let c = c.clone();
+            let done = done.clone();
+            std::thread::spawn(move || {
+                // an oversize insert (rejected: callback runs), then a burst that fills the small buffer and evicts
+                let _ = c.insert(mk_key(900, 0), 1, 100);
+                // a second client keeps the small buffer full while the callbacks run
+                let c3 = c.clone();
+                let filler = std::thread::spawn(move || {
+                    for k in 0..300u64 {
+                        let _ = c3.insert(mk_key(1000 + k % 60, 0), k, 1);
+                    }
+                });
+                for k in 0..200u64 {
+                    let _ = c.insert(mk_key(200 + k % 80, 0), k, 1 + (k % 3) as i64);
+                    if k % 50 == 49 {
+                        let _ = c.insert(mk_key(900 + k, 0), 1, 100);
+                    }
+                }
+                let _ = filler.join();
+                done.store(1, Ordering::SeqCst);
+                let _ = c.wait();
+                done.store(2, Ordering::SeqCst);
+                let _ = c.clear();
+                done.store(3, Ordering::SeqCst);
+                let _ = c.close();
+                done.store(4, Ordering::SeqCst);
+            })
+        };
+        let t0 = Instant::now();
+        while done.load(Ordering::SeqCst) < 4 && t0.elapsed() < Duration::from_secs(15) {
+            std::thread::sleep(Duration::from_millis(2));
+        }
+        let phase = done.load(Ordering::SeqCst);
+        cb.clear_hook();
+        if phase < 4 {
+            let what = ["the burst of inserts", "wait()", "clear()", "close()"][phase as usize];
+            note(&mut violations, &mut detail, format!(
+                "Cache round {} (buffer size 4): the callbacks insert into / look up the cache they belong to (on the processor's thread); {} did not return within 15 s: the processor blocks on its own queue",
+                r, what
+            ));
+            break;
+        }
+        if worker.join().is_err() {
+            note(&mut violations, &mut detail, format!("Cache round {}: a client call panicked while callbacks were re-entering the cache", r));
+        }
+    }
+    LiveResult { scenario: "reentrant_callbacks", rounds, violations, detail }
 }
